@@ -338,7 +338,8 @@ func compIn(c *Ctx, h Heap, name, sort string) Term {
 		fmt.Sscanf(e, "%d", &ep)
 	}
 	c0 := fmt.Sprintf("|%s@%d|", name, ep)
-	if c.constGlobals[name] {
+	if c.constGlobals[name] || c.finalComps[name] {
+		// (a final field first read after a havoc still denotes what it held at entry)
 		c0 = fmt.Sprintf("|%s@0|", name)
 	}
 	c.declare(c0, sort)
@@ -357,7 +358,14 @@ func (c *Ctx) fieldComp(structT types.Type, field int) (name, sort string, ft ty
 	if _, ok := types.Unalias(structT).(*types.Named); !ok {
 		key = typeKey(st)
 	}
-	return "F:" + strings.ReplaceAll(key, "|", "_") + "." + f.Name(), "(Array Int " + c.sortOf(f.Type()) + ")", f.Type()
+	name = "F:" + strings.ReplaceAll(key, "|", "_") + "." + f.Name()
+	if c.finalComps == nil {
+		c.finalComps = map[string]bool{}
+	}
+	if _, seen := c.finalComps[name]; !seen {
+		c.finalComps[name] = c.P.finalField(structT, field)
+	}
+	return name, "(Array Int " + c.sortOf(f.Type()) + ")", f.Type()
 }
 
 func (c *Ctx) boxComp(t types.Type) (name, sort string) {
